@@ -131,6 +131,7 @@ func cmdDeterm() {
 		setEndian(le)
 		orig := parsePolicy(&toks{t: f, i: 4})
 		snapshot := parsePolicy(&toks{t: f, i: 4})
+		shareBackingArrays(orig, layoutMode(id))
 		compile := func(p *seccomp.Policy) (res string) {
 			defer func() {
 				if r := recover(); r != nil {
